@@ -361,12 +361,12 @@ func c04Refusals(c *Ctx) {
 		n := 0
 		for _, b := range f.Blocks {
 			ret, ok := b.Instrs[len(b.Instrs)-1].(*ssa.Return)
-			if !ok || len(ret.Results) != 2 || !an.IsNilConst(ret.Results[0]) {
+			if !ok || len(ret.Results) != 2 || !an.IsNilConst(an.RetVal(ret, 0)) {
 				continue
 			}
 			n++
 			key := sprintf("refusal:%s#%d", t.name, n)
-			r.Check(an.NonNilError(ret.Results[1], b), "R04.E", key, c.pos(ret.Pos()),
+			r.Check(an.NonNilError(an.RetVal(ret, 1), b), "R04.E", key, c.pos(ret.Pos()),
 				"exit without a message: the error returned with it is certainly non-nil (fresh error, wrapper of a tested error, or the tested error itself)")
 		}
 		if n == 0 {
